@@ -287,7 +287,7 @@ func (f *family) rhcRelease() string {
 	b.WriteString(f.pick("1", "2", "140", "167", "202112140546", "202112140553", f.num()))
 	for n := r.Intn(4); n > 0; n-- {
 		b.WriteString(f.pick(".", ".", ".", "_", "~", "-"))
-		b.WriteString(f.pick("p0", "g8b9da97", "49a6fcf", "release_4.7", "assembly", "stream", "el8", f.num(), "1", "rc1"))
+		b.WriteString(f.pick("p0", "g8b9da97", "49a6fcf", "release_4.7", "assembly", "stream", "el8", f.num(), "1", "rc1", "source"))
 	}
 	return b.String()
 }
